@@ -30,7 +30,7 @@ def guess_native(name):
     """which native stub patches (lib/replay.py STUB_PATCHES) a harness needs when its counterexample is replayed"""
     if name.startswith(("hmove_", "hsetup_")):
         return ["toggle_piece", "toggle_ep", "toggle_castle"]
-    if name.startswith(("c01_castle_", "c01_filter_")):
+    if name.startswith(("c01_castle_", "c01_filter_", "witness_c01_castle")):
         return ["attack_targets"]
     if name.startswith("c01_wire_pawn_"):
         return ["pawn_move_targets", "pawn_attack_targets", "expand", "en_passant"]
@@ -345,6 +345,16 @@ add("c01_filter_pair_promo_b", ["C01"], "thorough",
 
 add("c13_piece_letters", ["C13"], "quick", "Piece::to_algebraic_str for all six pieces: '', N, B, R, Q, K (piece prefix and '=X' promotion suffix letters)",
     ["Piece::to_algebraic_str", "ALGEBRAIC_PIECE_STRS"], "all six pieces (the whole domain)", module=AN, est_s=20)
+
+for nm, d in [("knight", "white Ng1-f3 from the starting position"), ("king", "white Ke1-e2 (the king square changes)"), ("capture", "black Ra8xa1 (home rook captured)"),
+              ("ep", "white e5xd6 en passant"), ("castle", "white O-O"), ("promo", "black b2xa1=N")]:
+    add(f"c01_filter_fixed_{nm}", ["C01"], "thorough",
+        f"remove_invalid_moves on a FIXED position and candidate ({d}) with the attack map as the symbolic variable (all 2^64 maps): kept <=> the map misses the mover's king on the successor; map requested once, for the opponent, on the successor; board restored",
+        ["remove_invalid_moves", "ChessMove::apply", "ChessMove::undo"], "position and move concrete; attack map symbolic", stubs=[NOSPILL, ATTSTUB, APPENDSTUB], module=MG, est_s=120, native=["attack_targets"])
+add("c01_filter_fixed_promo_pair_b", ["C01"], "quick",
+    "remove_invalid_moves on a FIXED position with two capturing promotions onto the same square (black d2xe1, f2xe1; promotion pieces symbolic) and two independent symbolic attack maps: every candidate is tried on the board, each is kept or dropped on its own verdict, order preserved, board restored",
+    ["remove_invalid_moves", "PawnPromotionChessMove::apply", "PawnPromotionChessMove::undo"], "position concrete; promotion pieces and both attack maps symbolic",
+    stubs=[NOSPILL, ATTSTUB, APPENDSTUB], module=MG, est_s=200, native=["attack_targets"])
 
 def witness(name, props, module, desc, unwind=8, est_s=60):
     add(name, props, "quick", "vacuity witness: " + desc + "; same set-up as the obligations of this family, ends in assert!(false); must FAIL on exactly that assertion",
